@@ -265,7 +265,13 @@ where
 
                 // Reconstruct hash from relative path
                 let relative_path = blob_path.strip_prefix(cas_root).ok();
-                match relative_path.and_then(|p| BlobHash::from_relative_path(p).ok()) {
+                // Only the canonical path of a hash is a blob: a name that merely decodes to one
+                // (e.g. upper-case hex) is never addressed by the store and cannot be cleaned up
+                // through its hash, so it counts as an invalid file.
+                let canonical_hash = relative_path.and_then(|p| {
+                    BlobHash::from_relative_path(p).ok().filter(|hash| hash.relative_path() == p)
+                });
+                match canonical_hash {
                     Some(hash) => {
                         seen_blobs.insert(hash);
 
